@@ -21,6 +21,7 @@ EXPLANATION = (
     "order, object lifetimes, races beyond the lock/flag protocol shape, stdexec mode.")
 ASSUMPTIONS = ["completion CPOs are noexcept (receiver contract)", "pika::detail::try_catch_exception_ptr(f, g) runs f and, if f throws, g with the exception",
                "pika::detail::visit calls exactly one operator() of the visitor"]
+THOROUGH_CONFIGS = [["-UNDEBUG", "-DPIKA_DEBUG"]]
 FLOORS = {"C03.R1": 45, "C03.R2": 5, "C03.R3": 6, "C03.R4": 18, "C03.R5": 6, "C03.R6": 6}
 
 MEMBERS = ("set_value", "set_error", "set_stopped")
